@@ -215,6 +215,32 @@ def step(ctx, w: World, klass, rng, replay, arg=None) -> bool:
         ctx.count("pairing_reloads")
         return True
 
+    if klass == "GU":
+        # a genuine, fresh notification for a characteristic the cached database does not have (the accessory gained one, the
+        # cache is older): nothing can be delivered - but the state number it carries IS authentic, so from here on every
+        # smaller number is an old one (replaying the notifications in between must not move values or state backwards).
+        # And like every other advertisement it must not make the scanner callback raise (the pinned tree did: AttributeError
+        # from from_bytes(None, ..) - repaired, KNOWN_FINDINGS "fixed: property=C18 20f0d68").
+        n = w.L + rng.randint(2, 60)
+        if n > 0xFFFF:
+            # beyond the 16-bit counter the inner counter cannot equal the nonce: such a payload is an "IG" (ignored), not this class
+            ctx.count("unknown_characteristic_notifications_skipped_at_16_bit_limit")
+            return True
+        payload = refb.seal(w.key, DEVICE_ID, n, refb.plaintext_for(n & 0xFFFF, rng.choice([77, 999, 40000]), bytes(8)))
+        before_log = len(w.log)
+        ctx.count("advertisements_fed")
+        try:
+            w.feed(DEVICE_ID, refb.encrypted_notification(DEVICE_ID, payload))
+        except Exception as ex:  # noqa: BLE001
+            ctx.violation(f"scanner-callback-raises-{type(ex).__name__}", f"genuine notification for a characteristic that is not in the database (nonce {n}) from last accepted {w.L}: {ex!r}", replay)
+            return False
+        if w.log[before_log:]:
+            ctx.violation("notification-delivered-under-wrong-id", f"genuine notification for a characteristic that is not in the database (nonce {n}) from last accepted {w.L}: listeners got {w.log[before_log:]}", replay)
+            return False
+        ctx.count("unknown_characteristic_notifications")
+        w.L = n
+        return True
+
     adv, payload, exp = build_ad(w, klass, rng, arg)
     before_state = w.pairing.description.state_num
     before_log = len(w.log)
@@ -361,6 +387,12 @@ def run(ctx) -> None:
                 idx += 1
                 if ctx.mine(idx):
                     await run_history(ctx, start, hist, ("directed-reload", idx))
+        # a genuine notification for an unknown characteristic, then older genuine ones / a replay / the next one
+        for start in starts:
+            for hist in (("GU", "Gold"), ("GU", "Gold", "Gold", "Gold"), ("G1", "GU", "Gold", "G1"), ("GU", "Gcur"), ("GU", "G1", "Gold"), ("GU", "GU", "Gold", "Gold")):
+                idx += 1
+                if ctx.mine(idx):
+                    await run_history(ctx, start, hist, ("unknown-iid", idx))
         # cold starts (pairing rebuilt from the cache, no regular advertisement yet): old numbers stay old, fresh ones are fresh
         for start in (255, 500, 65000):
             for hist in (("Gsm",), ("Gold", "G1"), ("G1", "Gcur"), ("Gsm", "Gk", "Gold"), ("Gcur", "G1", "Gsm")):
@@ -378,7 +410,7 @@ def run(ctx) -> None:
         rng = ctx.rng("C18.random")
         for k in range(ctx.pick(640, 8000) // ctx.nshards):
             n = rng.randint(4, ctx.pick(14, 60))
-            hist = tuple(rng.choice(["G1", "G1", "G1", "Gk", "Gk99", "Gcur", "Gold", "G100", "WK", "IG", "WA", "TR"]) for _ in range(n))
+            hist = tuple(rng.choice(["G1", "G1", "G1", "Gk", "Gk99", "Gcur", "Gold", "Gold", "G100", "WK", "IG", "WA", "TR", "GU"]) for _ in range(n))
             await run_history(ctx, rng.choice(starts + [rng.randrange(0, 65000)]), hist, ("r", ctx.shard, k))
         await asyncio.sleep(0)
 
